@@ -768,7 +768,7 @@ pub fn api_harness(spec: &RunSpec) -> RunOutput {
                     };
                     vs.push(Violation::new(
                         rule,
-                        &[Prop::C06, Prop::C15],
+                        &[Prop::C06, Prop::C15, Prop::C12],
                         format!("Client::run of client{i} (1.{}) returned {e} (victim={victim}, fault fired={fired}, fault={fault_kind}@{fault_at})", c.minor),
                     ));
                 }
